@@ -214,6 +214,28 @@ def run_tissue(ck, case, reqs, pending):
         oracle(ck, pts, obs, dict(case, cell=cid))
         reqs.append({"op": "cell_geom", "pts": [[rat(x), rat(y)] for x, y in pts]})
         pending.append(("poly", dict(case, cell=cid), pts, obs))
+    # the neighbours of a cell also depend on which other cells exist: after a cell has been removed from the tissue (its
+    # destructor unregisters it from its vertices) every remaining cell is asked again
+    if len(bm.cells) >= 3:
+        victim = sorted(bm.cells)[case["seed"] % len(bm.cells)]
+        cl = None
+        del bm.cells[victim]
+        import gc
+        gc.collect()
+        still = [cid for cid, c_ in bm.cells.items() if any(victim in v.ownCells for v in c_.vertices)]
+        if still:
+            ck.count("removed_cell_still_referenced")        # some other object keeps it alive: nothing to check
+        else:
+            want2 = {}
+            for cid, c_ in bm.cells.items():
+                vs = set(v.id for v in c_.vertices)
+                want2[cid] = sorted(d for d, o in bm.cells.items() if d != cid and vs & set(v.id for v in o.vertices))
+            got2 = {cid: sorted(int(x) for x in c_.calculate_neighbors()) for cid, c_ in bm.cells.items()}
+            if got2 != want2:
+                bad = [cid for cid in want2 if want2[cid] != got2.get(cid)]
+                ck.fail("neighbours are exactly the other cells sharing a vertex (after a cell has been removed from the tissue)",
+                        f"removed {victim}; cells {bad[:3]}: got {[got2[b] for b in bad[:3]]} want {[want2[b] for b in bad[:3]]}", case)
+            ck.count("neighbours_after_removal_checked")
     ck.case(case, sample={"tissue": case, "cells": len(bm.cells), "vertices": len(bm.vertices)} if case.get("first") else None)
     ck.count("tissues")
 
